@@ -16,6 +16,8 @@ EXTRA = {
     'C19': ['dataflows/processors/dumpers/formats/', 'dataflows/processors/dumpers/to_zip.py'],
     'C03': ['dataflows/processors/dumpers/formats/'],
     'C06': ['dataflows/processors/dumpers/formats/', 'dataflows/processors/dumpers/dumper_base.py'],
+    # the checkpoint is handed the links that precede it by Flow._preprocess_chain, on every run
+    'C08': ['dataflows/base/flow.py'],
 }
 
 
